@@ -59,7 +59,168 @@ struct Params {
     // Auto / AutoSchedule: issue the call WITHOUT dry_run only when the harness's own planner (cut points
     // recomputed from the truth log) finds nothing to do; otherwise issue it as a dry run
     only_if_noop: bool,
+    // Append(8): what the cursor frame records - [provider; endpoint; model], Option as 0 / 1+x over CUR_PROVIDERS /
+    // CUR_ENDPOINTS / CUR_MODELS (None: provider 0, endpoint 0, model pick % 2, the frame of the earlier rounds)
+    rec: Option<[u8; 3]>,
+    // CursorRotate: the filters of the request, same encoding (None: the two filters of the earlier rounds)
+    flt: Option<[u8; 3]>,
 }
+
+const CUR_PROVIDERS: [&str; 3] = ["openresponses", "other", "third"];
+const CUR_ENDPOINTS: [&str; 3] = ["http://e", "http://f", "http://g"];
+const CUR_MODELS: [&str; 3] = ["m0", "m1", "m2"];
+fn opt_str(code: u8, names: &[&str; 3]) -> Option<String> {
+    if code == 0 {
+        None
+    } else {
+        Some(names[(code as usize - 1) % 3].to_string())
+    }
+}
+fn opt_code(v: Option<&str>, names: &[&str; 3]) -> u64 {
+    match v {
+        None => 0,
+        Some(s) => names.iter().position(|n| *n == s).map(|i| i as u64 + 1).unwrap_or(9),
+    }
+}
+/// [provider; endpoint; model] codes a cursor append records
+fn rec_codes(p: &Params) -> [u8; 3] {
+    p.rec.unwrap_or([1, 1, 1 + (p.pick % 2) as u8])
+}
+/// filter codes of a rotate request
+fn flt_codes(p: &Params) -> [u8; 3] {
+    p.flt.unwrap_or([if p.pick % 3 == 0 { 2 } else { 0 }, 0, if p.pick % 5 == 0 { 1 } else { 0 }])
+}
+/// The rule of provider_cursor_rotate_v1 restated on the frames of the TRUTH LOG: does some cursor frame of the thread
+/// pass the request's filters (a filter that is present is passed only by a recorded value that is present and equal).
+fn ref_rotate_has_target(stream: &[&Hdr], flt: [u8; 3]) -> bool {
+    let (fp, fe, fm) = (opt_str(flt[0], &CUR_PROVIDERS), opt_str(flt[1], &CUR_ENDPOINTS), opt_str(flt[2], &CUR_MODELS));
+    stream.iter().any(|h| match &h.ev.kind {
+        rip_kernel::EventKind::ContinuityProviderCursorUpdated { provider, endpoint, model, .. } => {
+            fp.as_ref().map(|x| x == provider).unwrap_or(true) && fe.as_ref().map(|x| endpoint.as_ref() == Some(x)).unwrap_or(true) && fm.as_ref().map(|x| model.as_ref() == Some(x)).unwrap_or(true)
+        }
+        _ => false,
+    })
+}
+
+// ---------- continuities/index.json: the rebuildable workspace index ----------
+#[derive(Clone, Copy, Debug, PartialEq, Eq)]
+enum IKind {
+    Current,
+    Deleted,
+    ZeroLength,
+    Torn,
+    Garbage,
+    WrongVersion(u32),
+    /// a valid index of the right version that lists nothing (a backup from before the first thread)
+    EmptyValid,
+    /// the current content with the workspace table emptied
+    NoWorkspaces,
+    /// the content the file had k saves ago (k = 1: the process died between the last log append and save_index)
+    Snapshot(usize),
+    /// the same, and the newer content sits in index.json.tmp (died between the write of the temporary file and the rename)
+    SnapshotWithTmp(usize),
+}
+const IKINDS: [IKind; 13] = [
+    IKind::Current, IKind::Deleted, IKind::ZeroLength, IKind::Torn, IKind::Garbage, IKind::WrongVersion(0), IKind::WrongVersion(2), IKind::EmptyValid, IKind::NoWorkspaces,
+    IKind::Snapshot(1), IKind::Snapshot(2), IKind::Snapshot(1000), IKind::SnapshotWithTmp(1),
+];
+fn index_file(env: &Env) -> std::path::PathBuf {
+    env.data_dir.join("continuities").join("index.json")
+}
+fn ws_dir(root: &std::path::Path, k: usize) -> std::path::PathBuf {
+    if k == 0 {
+        root.join("ws")
+    } else {
+        root.join(format!("ws-{k}"))
+    }
+}
+/// the store is dropped and opened again for workspace k (Env::restart would open it for workspace 0)
+fn reopen_ws(env: &mut Env, k: usize) {
+    let root = env.root.clone();
+    let data_dir = root.join("data");
+    let ws = ws_dir(&root, k);
+    std::fs::create_dir_all(&ws).unwrap();
+    let log = std::sync::Arc::new(rip_log::EventLog::new(data_dir.join("events.jsonl")).expect("event log"));
+    let store = std::sync::Arc::new(ContinuityStore::new(data_dir.clone(), ws.clone(), log.clone()).expect("store"));
+    *env = Env { root, data_dir, ws, log, store };
+}
+/// Applies the fault to index.json.  `snaps`: the distinct contents the file has had, oldest first.
+fn apply_index_fault(env: &Env, kind: IKind, snaps: &[Vec<u8>]) {
+    let p = index_file(env);
+    let cur = std::fs::read(&p).ok();
+    let _ = std::fs::create_dir_all(p.parent().unwrap());
+    let edit = |f: &dyn Fn(&mut serde_json::Value)| {
+        let mut v: serde_json::Value = cur.as_ref().and_then(|b| serde_json::from_slice(b).ok()).unwrap_or_else(|| json!({"version": 1, "workspaces": {}, "continuities": {}}));
+        f(&mut v);
+        let _ = std::fs::write(&p, serde_json::to_vec_pretty(&v).unwrap());
+    };
+    match kind {
+        IKind::Current => {}
+        IKind::Deleted => {
+            let _ = std::fs::remove_file(&p);
+        }
+        IKind::ZeroLength => {
+            let _ = std::fs::write(&p, b"");
+        }
+        IKind::Torn => {
+            let b = cur.clone().unwrap_or_else(|| b"{\"version\": 1, \"workspaces\": {".to_vec());
+            let _ = std::fs::write(&p, &b[..(b.len() / 2).max(1)]);
+        }
+        IKind::Garbage => {
+            let _ = std::fs::write(&p, b"not json");
+        }
+        IKind::WrongVersion(v) => edit(&|x| x["version"] = json!(v)),
+        IKind::EmptyValid => {
+            let _ = std::fs::write(&p, serde_json::to_vec_pretty(&json!({"version": 1, "workspaces": {}, "continuities": {}})).unwrap());
+        }
+        IKind::NoWorkspaces => edit(&|x| x["workspaces"] = json!({})),
+        IKind::Snapshot(k) | IKind::SnapshotWithTmp(k) => {
+            // position of the current content in the history of the file (the last one when it is not found)
+            let at = cur.as_ref().and_then(|c| snaps.iter().rposition(|s| s == c)).unwrap_or(snaps.len().saturating_sub(1));
+            if snaps.is_empty() {
+                return;
+            }
+            let old = &snaps[at.saturating_sub(k)];
+            if let (IKind::SnapshotWithTmp(_), Some(c)) = (kind, cur.as_ref()) {
+                let _ = std::fs::write(p.with_extension("json.tmp"), c);
+            }
+            let _ = std::fs::write(&p, old);
+        }
+    }
+}
+/// What index.json holds now, as the model's idx_fault term (threads as ordinals in creation order).
+fn index_state_coq(env: &Env, hs: &[Hdr]) -> (String, &'static str) {
+    let Ok(b) = std::fs::read(index_file(env)) else { return ("XIAbsent".into(), "absent") };
+    let Ok(v) = serde_json::from_slice::<serde_json::Value>(&b) else { return ("XIUnreadable".into(), "unreadable") };
+    let (Some(ver), Some(wss), Some(cs)) = (v.get("version").and_then(|x| x.as_u64()), v.get("workspaces").and_then(|x| x.as_object()), v.get("continuities").and_then(|x| x.as_object())) else {
+        return ("XIUnreadable".into(), "unreadable");
+    };
+    if ver != 1 {
+        return ("XIWrongVersion".into(), "wrong_version");
+    }
+    let ids = created_ids(hs);
+    let ord = |id: &str| ids.iter().position(|x| x == id).unwrap_or(4000);
+    let mut ws: Vec<String> = vec![];
+    for (path, id) in wss {
+        let k = (0..8).find(|k| ws_dir(&env.root, *k).to_string_lossy() == path.as_str()).unwrap_or(77);
+        ws.push(format!("({k}, {})", coq_nat(ord(id.as_str().unwrap_or("")) as u64)));
+    }
+    let known: Vec<String> = cs.keys().map(|id| coq_nat(ord(id) as u64)).collect();
+    (format!("(XIRestore [{}] [{}])", ws.join("; "), known.join("; ")), "readable")
+}
+
+/// a frame another writer left in the log (an older version of the store: optional fields absent)
+#[derive(Clone, Copy, Debug, PartialEq, Eq)]
+enum RawKind {
+    CursorNoEndpointNoModel,
+    CursorNoModel,
+    CheckpointNoMessageIds, // to_seq = seq of the newest message, no from_message_id / to_message_id
+    JobSpawnedNoDetails,
+    JobEndedNoResult,
+    ScheduleDecidedNoJob,
+    RunSpawnedNoActor,
+}
+const RAWKINDS: [RawKind; 7] = [RawKind::CursorNoEndpointNoModel, RawKind::CursorNoModel, RawKind::CheckpointNoMessageIds, RawKind::JobSpawnedNoDetails, RawKind::JobEndedNoResult, RawKind::ScheduleDecidedNoJob, RawKind::RunSpawnedNoActor];
 
 #[derive(Clone, Debug)]
 enum Call {
@@ -72,6 +233,12 @@ enum Call {
     /// moved `ms` into the past (negative: into the future; same number of digits, so byte offsets in
     /// the indexes stay valid) and the store is opened again: "the same store, that much later"
     Age { ms: i64 },
+    /// continuities/index.json is replaced (takes effect at the next restart: the open store keeps its in-memory index)
+    IndexFault { kind: IKind },
+    /// the store is dropped and opened for workspace `ws` of the same data dir
+    Reopen { ws: usize },
+    /// a frame written to events.jsonl behind the store's back (next seq of the thread, no cache told), then a restart
+    Raw { th: usize, kind: RawKind },
 }
 
 // ---------- faults on one cache file ----------
@@ -220,7 +387,7 @@ fn shift_timestamps(bytes: &[u8], ms: i64) -> Option<(Vec<u8>, u64)> {
 }
 
 /// Call::Age.  Returns (frames of events.jsonl re-stamped, files rewritten).
-fn age_store(env: &mut Env, ms: i64) -> (u64, u64) {
+fn age_store(env: &mut Env, ms: i64, cur_ws: usize) -> (u64, u64) {
     let mut files = vec![env.log_path()];
     if let Ok(rd) = std::fs::read_dir(env.data_dir.join("continuity_streams")) {
         for e in rd.flatten() {
@@ -247,7 +414,7 @@ fn age_store(env: &mut Env, ms: i64) -> (u64, u64) {
             }
         }
     }
-    env.restart();
+    reopen_ws(env, cur_ws);
     (stamped, rewritten)
 }
 
@@ -370,6 +537,7 @@ struct Facts {
     unmodelled: bool,
     resp_silent: bool,
     planned_seqs: Option<Vec<u64>>, // to_seq of the cut points the response lists as planned
+    answer: Option<String>,         // EnsureDefault: the thread id it answered (None: Err)
 }
 impl Facts {
     fn coq(&self) -> String {
@@ -473,8 +641,12 @@ fn do_cap(env: &Env, hs: &[Hdr], cp: Cp, th: usize, p: &Params) -> Facts {
             let _ = st.context_selection_status_v1(&id, ContextSelectionStatusV1Request { limit: p.limit });
         }
         Cp::EnsureDefault => {
-            if let Ok(got) = st.ensure_default() {
-                f.ok = !created_ids(hs).contains(&got);
+            match st.ensure_default() {
+                Ok(got) => {
+                    f.ok = !created_ids(hs).contains(&got);
+                    f.answer = Some(got);
+                }
+                Err(_) => f.answer = None,
             }
         }
         Cp::Append(t) => {
@@ -490,7 +662,10 @@ fn do_cap(env: &Env, hs: &[Hdr], cp: Cp, th: usize, p: &Params) -> Facts {
                 ),
                 6 => ripd::verif::append_context_selection_decided(st, &id, "run-1".into(), mid, "recent_messages_v1".into(), vec![], a, o),
                 7 => ripd::verif::append_context_compiled(st, &id, "run-1".into(), "art".into(), "recent_messages_v1".into(), 0, None, a, o),
-                _ => ripd::verif::append_provider_cursor_updated(st, &id, "openresponses".into(), Some("http://e".into()), Some(format!("m{}", p.pick % 2)), Some(json!({"previous_response_id": "r"})), "set".into(), Some("run-1".into()), a, o),
+                _ => {
+                    let rc = rec_codes(p);
+                    ripd::verif::append_provider_cursor_updated(st, &id, opt_str(rc[0].max(1), &CUR_PROVIDERS).unwrap(), opt_str(rc[1], &CUR_ENDPOINTS), opt_str(rc[2], &CUR_MODELS), Some(json!({"previous_response_id": "r"})), "set".into(), Some("run-1".into()), a, o)
+                }
             };
             f.ok = r.is_ok();
         }
@@ -547,7 +722,10 @@ fn do_cap(env: &Env, hs: &[Hdr], cp: Cp, th: usize, p: &Params) -> Facts {
         Cp::CursorRotate => {
             let r = st.provider_cursor_rotate_v1(
                 &id,
-                ProviderCursorRotateV1Request { provider: if p.pick % 3 == 0 { Some("other".into()) } else { None }, endpoint: None, model: if p.pick % 5 == 0 { Some("m0".into()) } else { None }, reason: None, actor_id: a, origin: o },
+                {
+                    let fc = flt_codes(p);
+                    ProviderCursorRotateV1Request { provider: opt_str(fc[0], &CUR_PROVIDERS), endpoint: opt_str(fc[1], &CUR_ENDPOINTS), model: opt_str(fc[2], &CUR_MODELS), reason: if p.pick % 2 == 0 { None } else { Some("model switch".into()) }, actor_id: a, origin: o }
+                },
             );
             f.ok = matches!(&r, Ok(x) if x.rotated);
             f.resp_silent = matches!(&r, Ok(x) if !x.rotated);
@@ -609,6 +787,8 @@ struct Outcome {
     parsed: Option<(Vec<u8>, Vec<Hdr>)>, // the log (bytes, frames) as it was after the last call
     plan_cases: Vec<String>,             // CPlan terms (Model/NoopPlan.v): what the call planned vs the model planner
     damaged: Vec<(usize, CFile)>,        // cache files the harness damaged since the caches of that thread were last removed
+    cur_ws: usize,                       // the workspace the store is open for
+    idx_snaps: Vec<Vec<u8>>,             // the distinct contents index.json has had, oldest first
 }
 
 // ---------- monitor inside EventLog::append (rip_kernel::verif hook, points log.*) ----------
@@ -728,6 +908,25 @@ fn tree_diff(a: &std::collections::BTreeMap<String, (u64, u64)>, b: &std::collec
     a.keys().find(|k| !b.contains_key(*k)).map(|k| format!("removed {k}"))
 }
 
+fn raw_event(kind: RawKind, id: &str, stream: &[&Hdr]) -> Option<rip_kernel::Event> {
+    use rip_kernel::EventKind as K;
+    let last = stream.last()?;
+    let seq = last.seq + 1;
+    let last_msg = stream.iter().rev().find(|h| h.code == 4);
+    let (a, o) = ("user".to_string(), "older-version".to_string());
+    let job = "raw-job-1".to_string();
+    let kind = match kind {
+        RawKind::CursorNoEndpointNoModel => K::ContinuityProviderCursorUpdated { provider: "openresponses".into(), endpoint: None, model: None, cursor: Some(json!({"previous_response_id": "r"})), action: "set".into(), reason: None, run_session_id: None, actor_id: a, origin: o },
+        RawKind::CursorNoModel => K::ContinuityProviderCursorUpdated { provider: "openresponses".into(), endpoint: Some("http://e".into()), model: None, cursor: Some(json!({"previous_response_id": "r"})), action: "set".into(), reason: None, run_session_id: None, actor_id: a, origin: o },
+        RawKind::CheckpointNoMessageIds => K::ContinuityCompactionCheckpointCreated { checkpoint_id: format!("raw-cp-{seq}"), cut_rule_id: "manual".into(), summary_kind: "cumulative_v1".into(), summary_artifact_id: "raw-artifact".into(), from_seq: 0, from_message_id: None, to_seq: last_msg?.seq, to_message_id: None, actor_id: a, origin: o },
+        RawKind::JobSpawnedNoDetails => K::ContinuityJobSpawned { job_id: job, job_kind: "compaction_summarizer_v1".into(), details: None, actor_id: a, origin: o },
+        RawKind::JobEndedNoResult => K::ContinuityJobEnded { job_id: job, job_kind: "compaction_summarizer_v1".into(), status: "completed".into(), result: None, error: None, actor_id: a, origin: o },
+        RawKind::ScheduleDecidedNoJob => K::ContinuityCompactionAutoScheduleDecided { decision_id: format!("raw-decision-{seq}"), policy_id: "auto_schedule_v1".into(), decision: "scheduled".into(), execute: false, stride_messages: 2, max_new_checkpoints: 1, block_on_inflight: true, message_count: 0, cut_rule_id: "stride_messages_v1/2".into(), planned: vec![], job_id: None, job_kind: None, reason: None, actor_id: a, origin: o },
+        RawKind::RunSpawnedNoActor => K::ContinuityRunSpawned { run_session_id: "raw-run-1".into(), message_id: last_msg.map(|h| h.id.clone()).unwrap_or_else(|| "m0".into()), actor_id: None, origin: None },
+    };
+    Some(rip_kernel::Event { id: format!("raw-frame-{seq}-{}", &id[..id.len().min(8)]), session_id: id.to_string(), timestamp_ms: last.ev.timestamp_ms, seq, kind })
+}
+
 /// One call on the real store + the independent oracle around it.
 fn apply_call(env: &mut Env, call: &Call, out: &mut Outcome, dist: &mut Option<&mut RunResult>) {
     let before = env.log_bytes();
@@ -744,6 +943,8 @@ fn apply_call(env: &mut Env, call: &Call, out: &mut Outcome, dist: &mut Option<&
     // independent judgement of "nothing to do" for auto / auto-schedule: no cut point of the requested
     // stride is left without a checkpoint IN THE TRUTH LOG (whatever the response says)
     let mut noop_by_truth: Option<&'static str> = None;
+    let mut ensure_idempotent = false;
+    let mut ensure_answer: Option<Option<String>> = None;
     let mut aged = false;
     match call {
         Call::Cap { cp, th, p } => {
@@ -761,12 +962,32 @@ fn apply_call(env: &mut Env, call: &Call, out: &mut Outcome, dist: &mut Option<&
                 }
             }
             if matches!(cp, Cp::CursorRotate) && *th < created_ids(&hs).len() {
-                // no cursor frame in the thread: there is nothing to rotate
+                // no cursor frame of the thread passes the request's filters (judged on the frames of the truth log,
+                // recorded endpoint / model absent or present): there is nothing to rotate
                 let id = thread_id(&hs, *th, p.pick);
-                if !hs.iter().any(|h| h.kind == rip_kernel::StreamKind::Continuity && h.sid == id && h.code == 8) {
+                let stream: Vec<&Hdr> = hs.iter().filter(|h| h.kind == rip_kernel::StreamKind::Continuity && h.sid == id).collect();
+                let cursors = stream.iter().filter(|h| h.code == 8).count();
+                if !ref_rotate_has_target(&stream, flt_codes(p)) {
                     noop_by_truth = Some("");
                     if let Some(d) = dist.as_deref_mut() {
-                        d.bump("cursor_rotate_with_no_cursor_in_the_truth_log");
+                        d.bump(if cursors == 0 { "cursor_rotate_with_no_cursor_in_the_truth_log" } else { "cursor_rotate_with_filters_no_recorded_cursor_passes" });
+                        let absent = stream.iter().any(|h| matches!(&h.ev.kind, rip_kernel::EventKind::ContinuityProviderCursorUpdated { endpoint, model, .. } if endpoint.is_none() || model.is_none()));
+                        if absent {
+                            d.bump("cursor_rotate_must_find_nothing_and_a_recorded_cursor_lacks_endpoint_or_model");
+                        }
+                    }
+                }
+            }
+            // ensure_default is idempotent: when the truth log holds a thread of the store's workspace it adds nothing
+            // and answers a thread of that workspace - whatever state continuities/index.json is in
+            if matches!(cp, Cp::EnsureDefault) {
+                let key = env.ws.to_string_lossy().to_string();
+                if hs.iter().any(|h| matches!(&h.ev.kind, rip_kernel::EventKind::ContinuityCreated { workspace, .. } if *workspace == key)) {
+                    noop_by_truth = Some("");
+                    ensure_idempotent = true;
+                    if let Some(d) = dist.as_deref_mut() {
+                        d.bump("ensure_default_with_the_thread_in_the_truth_log");
+                        d.bump(&format!("ensure_default_with_the_thread_in_the_truth_log_index_file={}", index_state_coq(env, &hs).1));
                     }
                 }
             }
@@ -787,7 +1008,23 @@ fn apply_call(env: &mut Env, call: &Call, out: &mut Outcome, dist: &mut Option<&
             out.unmodelled |= f.unmodelled;
             silent_req = cp.read_only() || (matches!(cp, Cp::Auto | Cp::AutoSchedule) && (f.dry || f.stride0)) || f.resp_silent;
             name = format!("{cp:?}").split('(').next().unwrap().to_string();
-            out.coq_calls.push(format!("KCap {} {} {}", cp.coq(), coq_nat((*th).min(99) as u64), f.coq()));
+            let th_c = coq_nat((*th).min(99) as u64);
+            out.coq_calls.push(match cp {
+                Cp::EnsureDefault => {
+                    ensure_answer = Some(f.answer.clone());
+                    "DEnsure".to_string()
+                }
+                Cp::Append(8) => {
+                    let rc = rec_codes(p);
+                    format!("DCursor {th_c} {} {} {}", rc[0].max(1) - 1, rc[1], rc[2])
+                }
+                Cp::CursorRotate => {
+                    let fc = flt_codes(p);
+                    format!("DRotate {th_c} {} {} {}", fc[0], fc[1], fc[2])
+                }
+                Cp::Branch | Cp::Handoff => format!("DLineage {} {th_c} {}", coq_bool(*cp == Cp::Branch), coq_bool(f.ok)),
+                _ => format!("D (K (KCap {} {th_c} {}))", cp.coq(), f.coq()),
+            });
             if *th >= created_ids(&hs).len() {
                 name = format!("{name}[id={:?}]", thread_id(&hs, *th, p.pick).chars().take(40).collect::<String>());
             }
@@ -820,14 +1057,14 @@ fn apply_call(env: &mut Env, call: &Call, out: &mut Outcome, dist: &mut Option<&
                 Fault::TearTail => "XTearTail",
                 _ => "XEmpty",
             };
-            out.coq_calls.push(format!("KFault {xs} {}", coq_nat((*th).min(99) as u64)));
+            out.coq_calls.push(format!("D (K (KFault {xs} {}))", coq_nat((*th).min(99) as u64)));
             if let Some(d) = dist.as_deref_mut() {
                 d.bump(&format!("fault={}", x.name()));
             }
         }
         Call::Restart => {
-            env.restart();
-            out.coq_calls.push("KRestart".into());
+            reopen_ws(env, out.cur_ws);
+            out.coq_calls.push("D (K KRestart)".into());
             if let Some(d) = dist.as_deref_mut() {
                 d.bump("restart");
             }
@@ -841,12 +1078,12 @@ fn apply_call(env: &mut Env, call: &Call, out: &mut Outcome, dist: &mut Option<&
             // the model keeps the full sidecar only: a fault on a derived file has no counterpart there
             let th_c = coq_nat((*th).min(99) as u64);
             out.coq_calls.push(match (file, kind, done) {
-                (CFile::Full, CKind::Deleted, true) => format!("KFault XDelete {th_c}"),
-                (CFile::Full, CKind::ZeroLength, true) => format!("KFault XEmpty {th_c}"),
-                (CFile::Full, CKind::TornLastLine, true) => format!("KFault XTearTail {th_c}"),
-                (CFile::Full, CKind::TrailingGarbage, true) => format!("KSideGarbage false {th_c}"),
-                (CFile::Full, CKind::MidGarbage, true) => format!("KSideGarbage true {th_c}"),
-                _ => "KDerivedFault".to_string(),
+                (CFile::Full, CKind::Deleted, true) => format!("D (K (KFault XDelete {th_c}))"),
+                (CFile::Full, CKind::ZeroLength, true) => format!("D (K (KFault XEmpty {th_c}))"),
+                (CFile::Full, CKind::TornLastLine, true) => format!("D (K (KFault XTearTail {th_c}))"),
+                (CFile::Full, CKind::TrailingGarbage, true) => format!("D (KSideGarbage false {th_c})"),
+                (CFile::Full, CKind::MidGarbage, true) => format!("D (KSideGarbage true {th_c})"),
+                _ => "D KDerivedFault".to_string(),
             });
             if let Some(d) = dist.as_deref_mut() {
                 d.bump(&format!("cache_fault={}:{kind:?}{}", file.suffix(), if done { "" } else { ":no_such_file" }));
@@ -854,15 +1091,63 @@ fn apply_call(env: &mut Env, call: &Call, out: &mut Outcome, dist: &mut Option<&
         }
         Call::Age { ms } => {
             let frames_before = hs.len() as u64;
-            let (stamped, files) = age_store(env, *ms);
+            let (stamped, files) = age_store(env, *ms, out.cur_ws);
             aged = true;
-            out.coq_calls.push("KAge".into());
+            out.coq_calls.push("D KAge".into());
             if let Some(d) = dist.as_deref_mut() {
                 d.bump(&format!("aged_by_ms={ms}"));
                 d.bump_by("aged_files_rewritten", files);
             }
             if stamped != frames_before {
                 out.violations.push((format!("harness: ageing re-stamped {stamped} of {frames_before} frames"), "harness_age_failed".into()));
+            }
+        }
+        Call::IndexFault { kind } => {
+            apply_index_fault(env, *kind, &out.idx_snaps);
+            let (term, state) = index_state_coq(env, &hs);
+            out.coq_calls.push(format!("DIdx {term}"));
+            if let Some(d) = dist.as_deref_mut() {
+                d.bump(&format!("index_fault={kind:?}").split('(').next().unwrap().to_string());
+                d.bump(&format!("index_file_after_fault={state}"));
+            }
+        }
+        Call::Reopen { ws } => {
+            out.cur_ws = *ws;
+            reopen_ws(env, *ws);
+            out.coq_calls.push(format!("DReopen {ws}"));
+            if let Some(d) = dist.as_deref_mut() {
+                d.bump(&format!("reopen_for_workspace={ws}"));
+            }
+        }
+        Call::Raw { th, kind } => {
+            let ids = created_ids(&hs);
+            let ev = ids.get(*th).and_then(|id| {
+                let stream: Vec<&Hdr> = hs.iter().filter(|h| h.kind == rip_kernel::StreamKind::Continuity && &h.sid == id).collect();
+                raw_event(*kind, id, &stream)
+            });
+            let th_c = coq_nat((*th).min(99) as u64);
+            match ev {
+                Some(ev) if env.log.append(&ev).is_ok() => {
+                    let ar = match &ev.kind {
+                        rip_kernel::EventKind::ContinuityProviderCursorUpdated { provider, endpoint, model, .. } => format!("[{}; {}; {}]", opt_code(Some(provider), &CUR_PROVIDERS) - 1, opt_code(endpoint.as_deref(), &CUR_ENDPOINTS), opt_code(model.as_deref(), &CUR_MODELS)),
+                        _ => "[]".to_string(),
+                    };
+                    out.coq_calls.push(format!("DRaw {th_c} {} {ar}", coq_etype(etype_code(&ev.kind))));
+                }
+                _ => out.coq_calls.push(format!("DReopen {}", out.cur_ws)), // nothing written (no such thread / no message yet): only the restart
+            }
+            reopen_ws(env, out.cur_ws);
+            name = format!("Raw{kind:?}");
+            if let Some(d) = dist.as_deref_mut() {
+                d.bump(&format!("raw_frame={kind:?}"));
+            }
+        }
+    }
+    // the history of index.json (for IKind::Snapshot): every distinct content the store itself wrote
+    if !matches!(call, Call::IndexFault { .. }) {
+        if let Ok(b) = std::fs::read(index_file(env)) {
+            if out.idx_snaps.last() != Some(&b) && serde_json::from_slice::<serde_json::Value>(&b).is_ok() {
+                out.idx_snaps.push(b);
             }
         }
     }
@@ -904,7 +1189,7 @@ fn apply_call(env: &mut Env, call: &Call, out: &mut Outcome, dist: &mut Option<&
                 let n0 = name.split('[').next().unwrap().to_string();
                 let kinds: Vec<&str> = fs.iter().map(|h| ETYPES[h.code as usize]).collect();
                 let class = if derived.is_empty() { format!("nothing_to_do_invocation_appended_{n0}") } else { format!("nothing_to_do_invocation_appended:{derived}") };
-                out.violations.push((format!("{name}: {} in the truth log (nothing to do), yet the call appended {} frame(s): {}{}", if n0 == "CursorRotate" { "the thread has no provider cursor frame" } else { "every cut point of the requested stride has a checkpoint" }, fs.len(), kinds.join(", "), if derived.is_empty() { String::new() } else { format!(" [cache state: {derived}]") }), class));
+                out.violations.push((format!("{name}: {} in the truth log (nothing to do), yet the call appended {} frame(s): {}{}", if n0 == "CursorRotate" { "no provider cursor frame of the thread passes the filters of the request" } else if n0 == "EnsureDefault" { "the workspace of the store has its thread" } else { "every cut point of the requested stride has a checkpoint" }, fs.len(), kinds.join(", "), if derived.is_empty() { String::new() } else { format!(" [cache state: {derived}]") }), class));
             }
             if let Call::Cap { p, cp: Cp::Append(4), .. } = call {
                 if p.big.is_some() && !suffix.is_empty() {
@@ -923,6 +1208,21 @@ fn apply_call(env: &mut Env, call: &Call, out: &mut Outcome, dist: &mut Option<&
             out.violations.push((format!("{name}: a call aimed at an id that names no thread {d} outside data/continuity_streams/"), "thread_id_escapes_cache_dir".into()));
         }
     }
+    // ensure_default: the answer must be a thread of the store's workspace that is in the log (1; 0: it is not; 2: Err)
+    let ensure_code = ensure_answer.as_ref().map(|ans| {
+        let key = env.ws.to_string_lossy().to_string();
+        let all_now = parse_log(&after).unwrap_or_default();
+        match ans {
+            None => 2u64,
+            Some(id) => u64::from(all_now.iter().any(|h| &h.sid == id && matches!(&h.ev.kind, rip_kernel::EventKind::ContinuityCreated { workspace, .. } if *workspace == key))),
+        }
+    });
+    if let (true, Some(code)) = (ensure_idempotent, ensure_code) {
+        out.oracle_checks += 1;
+        if code != 1 {
+            out.violations.push((format!("{name}: the truth log holds a thread of the store's workspace, yet ensure_default answered {}", if code == 2 { "an error".to_string() } else { format!("{:?}, which is not a thread of that workspace in the log", ensure_answer.clone().flatten()) }), "ensure_default_answer_not_from_the_log".into()));
+        }
+    }
     match parsed_suffix {
         Ok(fs) if before.is_empty() || !hs.is_empty() => {
             let mut all = hs;
@@ -932,10 +1232,13 @@ fn apply_call(env: &mut Env, call: &Call, out: &mut Outcome, dist: &mut Option<&
         }
         _ => out.obs.push(parse_log(&after).map(|h| h.len() as u64).unwrap_or(0)),
     }
+    if let Some(code) = ensure_code {
+        out.obs.push(code);
+    }
 }
 
 fn new_outcome() -> Outcome {
-    Outcome { obs: vec![], coq_calls: vec![], violations: vec![], unmodelled: false, appended_by_silent: 0, oracle_checks: 0, final_frames: 0, big_lines: vec![], hook_points: 0, parsed: None, plan_cases: vec![], damaged: vec![] }
+    Outcome { obs: vec![], coq_calls: vec![], violations: vec![], unmodelled: false, appended_by_silent: 0, oracle_checks: 0, final_frames: 0, big_lines: vec![], hook_points: 0, parsed: None, plan_cases: vec![], damaged: vec![], cur_ws: 0, idx_snaps: vec![] }
 }
 
 fn run_case(calls: &[Call], dist: Option<&mut RunResult>) -> Outcome {
@@ -968,6 +1271,8 @@ fn gen_params(r: &mut Rng) -> Params {
         big: if r.chance(1, 12) { Some(*r.pick(&[8190usize, 8191, 8192, 8193, 8194, 16385, 30000])) } else { None },
         esc: r.chance(1, 2),
         only_if_noop: false,
+        rec: if r.chance(1, 3) { None } else { Some([1 + r.below(2) as u8, r.below(3) as u8, r.below(3) as u8]) },
+        flt: if r.chance(1, 4) { None } else { Some([r.below(3) as u8, r.below(4) as u8, r.below(4) as u8]) },
     }
 }
 
@@ -995,7 +1300,7 @@ fn gen_case(r: &mut Rng, long: bool) -> Vec<Call> {
                 Call::Cap { cp: Cp::Handoff, th, p }
             }
             18 | 19 => Call::Cap { cp: Cp::Checkpoint, th, p },
-            20 => Call::Cap { cp: Cp::CursorRotate, th, p },
+            20 | 39 => Call::Cap { cp: Cp::CursorRotate, th, p },
             21..=23 => Call::Cap { cp: Cp::Auto, th, p: Params { only_if_noop: r.chance(1, 4), ..p } },
             24..=26 => Call::Cap { cp: Cp::AutoSchedule, th, p: Params { only_if_noop: r.chance(1, 4), ..p } },
             27 => Call::Cap { cp: Cp::CutPoints, th, p },
@@ -1007,6 +1312,9 @@ fn gen_case(r: &mut Rng, long: bool) -> Vec<Call> {
             33 => Call::Cap { cp: Cp::EnsureDefault, th: 0, p },
             34 | 35 => Call::Restart,
             36 if r.chance(1, 2) => Call::Age { ms: *r.pick(&[16 * 60_000, HOUR, 30 * 24 * HOUR, -HOUR]) },
+            37 if r.chance(1, 2) => Call::IndexFault { kind: *r.pick(&IKINDS) },
+            38 if r.chance(1, 3) => Call::Reopen { ws: r.below(3) as usize },
+            38 if r.chance(1, 2) => Call::Raw { th, kind: *r.pick(&RAWKINDS) },
             _ => Call::Fault { x: *r.pick(&[Fault::Delete, Fault::TearTail, Fault::Empty, Fault::Delete]), th },
         };
         calls.push(c);
@@ -1208,6 +1516,156 @@ fn sweep_cases(thorough: bool) -> Vec<(String, Vec<Call>)> {
     }
     out.extend(product_cases());
     out.extend(noop_fault_cases(thorough));
+    out.extend(rotate_filter_cases(thorough));
+    out.extend(index_state_cases(thorough));
+    out.extend(raw_frame_cases());
+    out
+}
+
+/// (a) provider-cursor-rotate: EVERY combination of the three optional filters (absent / a recorded value / another
+/// recorded value / a value nothing records) against threads whose cursor frames record endpoint and model, only one
+/// of them, or neither (a run configured without a model records none; old logs have no endpoint) - in four cache
+/// states.  Whether a rotate must find nothing is judged per call on the frames of the truth log.
+fn rotate_filter_cases(thorough: bool) -> Vec<(String, Vec<Call>)> {
+    let ensure = || cap(Cp::EnsureDefault, 0, Params::default());
+    let cur = |rec: [u8; 3]| cap(Cp::Append(8), 0, Params { rec: Some(rec), ..Default::default() });
+    let contents: Vec<(&str, Vec<Call>)> = vec![
+        ("no_cursor", vec![]),
+        ("cursor_with_endpoint_and_model", vec![cur([1, 1, 1])]),
+        ("cursor_without_model", vec![cur([1, 1, 0])]),
+        ("cursor_without_endpoint", vec![cur([1, 0, 1])]),
+        ("cursor_without_endpoint_and_model", vec![cur([1, 0, 0])]),
+        ("cursors_mixed", vec![cur([1, 1, 1]), cur([1, 1, 0]), cur([2, 0, 2]), cap(Cp::Append(4), 0, Params::default()), cur([1, 2, 0])]),
+        ("cursor_rotated_by_an_unfiltered_request", vec![cur([1, 1, 0]), cap(Cp::CursorRotate, 0, Params { flt: Some([0, 0, 0]), ..Default::default() })]),
+        ("raw_cursor_frames_of_an_older_log", vec![Call::Raw { th: 0, kind: RawKind::CursorNoEndpointNoModel }, Call::Raw { th: 0, kind: RawKind::CursorNoModel }]),
+    ];
+    let states: Vec<(&str, Vec<Call>)> = vec![
+        ("as_is", vec![]),
+        ("caches_deleted", vec![Call::Fault { x: Fault::Delete, th: 0 }]),
+        ("restart", vec![Call::Restart]),
+        ("sidecar_torn_restart", vec![Call::Fault { x: Fault::TearTail, th: 0 }, Call::Restart]),
+    ];
+    let vals: &[u8] = if thorough { &[0, 1, 2, 3] } else { &[0, 1, 2] };
+    let mut out = vec![];
+    for (cname, setup) in contents {
+        let mut c = vec![ensure()];
+        c.extend(msgs(0, 2));
+        c.extend(setup);
+        for (sname, pre) in &states {
+            if !thorough && *sname == "caches_deleted" && cname != "cursor_without_model" {
+                continue;
+            }
+            for fp in vals {
+                for fe in vals {
+                    for fm in vals {
+                        c.extend(pre.clone());
+                        c.push(cap(Cp::CursorRotate, 0, Params { flt: Some([*fp, *fe, *fm]), pick: (*fp + *fe + *fm) as u64, ..Default::default() }));
+                    }
+                }
+            }
+            c.push(cap(Cp::CursorStatus, 0, Params::default()));
+        }
+        out.push((format!("rotate_filters/{cname}"), c));
+    }
+    out
+}
+
+/// (b) ensure_default (the one get-or-create of the store) after a restart under every state of the rebuildable
+/// index continuities/index.json: absent, current, behind the log (the content before the last save = the process
+/// died between the log append and save_index; an older backup), unreadable (zero bytes, torn, garbage), another
+/// version, valid but empty, workspace table emptied, with a left-over temporary file.  Two workspaces share the data
+/// dir in two of the contents (the index then lists one of them and not the other).  Followed each time by the other
+/// no-op invocations on the thread.  The log is the truth: nothing may be added, the answer is a thread of the log.
+fn index_state_cases(thorough: bool) -> Vec<(String, Vec<Call>)> {
+    let ensure = || cap(Cp::EnsureDefault, 0, Params::default());
+    let mut one = vec![ensure()];
+    one.extend(msgs(0, 2));
+    one.push(cap(Cp::Append(8), 0, Params { rec: Some([1, 1, 0]), ..Default::default() }));
+    // two workspaces, each with its default thread
+    let mut two = vec![ensure()];
+    two.extend(msgs(0, 1));
+    two.push(Call::Reopen { ws: 1 });
+    two.push(ensure());
+    two.extend(msgs(1, 1));
+    // children: branch + handoff of the default thread; workspace 1 has only a child (branched by a store opened for it)
+    let mut kids = vec![ensure()];
+    kids.extend(msgs(0, 2));
+    kids.push(cap(Cp::Branch, 0, Params::default()));
+    kids.push(cap(Cp::Handoff, 0, Params::default()));
+    kids.push(Call::Reopen { ws: 1 });
+    kids.push(cap(Cp::Branch, 0, Params::default()));
+    let contents: Vec<(&str, Vec<Call>, Vec<usize>)> = vec![("one_workspace", one, vec![0]), ("two_workspaces", two, vec![0, 1]), ("children_and_a_workspace_with_only_a_child", kids, vec![0, 1])];
+    let mut out = vec![];
+    for (cname, setup, wss) in contents {
+        let mut c = setup;
+        for kind in IKINDS {
+            for ws in &wss {
+                // after a restart
+                c.push(Call::IndexFault { kind });
+                c.push(Call::Reopen { ws: *ws });
+                c.push(ensure());
+                c.push(ensure());
+                c.push(cap(Cp::List, 0, Params::default()));
+                c.push(cap(Cp::CursorRotate, 0, Params { flt: Some([0, 0, 1]), ..Default::default() }));
+                c.push(cap(Cp::CompactionStatus, 0, Params { stride: Some(2), ..Default::default() }));
+                c.push(cap(Cp::AutoSchedule, 0, Params { stride: Some(3), only_if_noop: true, ..Default::default() }));
+                c.push(ensure());
+                // the fault, then a plain restart of the same workspace, ensure as the FIRST call
+                c.push(Call::IndexFault { kind });
+                c.push(Call::Restart);
+                c.push(ensure());
+                if thorough || matches!(kind, IKind::Garbage | IKind::Snapshot(1)) {
+                    // without a restart: the in-memory index answers, the file is not looked at
+                    c.push(Call::IndexFault { kind });
+                    c.push(ensure());
+                    // ... and the caches of the thread gone as well
+                    c.push(Call::IndexFault { kind });
+                    c.push(Call::Fault { x: Fault::Delete, th: 0 });
+                    c.push(Call::Restart);
+                    c.push(ensure());
+                }
+            }
+        }
+        c.push(cap(Cp::Append(4), 0, Params::default()));
+        out.push((format!("index_states/{cname}"), c));
+    }
+    // a store whose log is empty: the first ensure creates the thread whatever the index file holds (non-vacuity: the
+    // same call DOES append when the log has no thread of the workspace)
+    let mut fresh = vec![Call::IndexFault { kind: IKind::Garbage }, Call::Restart, ensure(), ensure()];
+    fresh.extend([Call::Reopen { ws: 2 }, ensure(), ensure(), Call::IndexFault { kind: IKind::Snapshot(1) }, Call::Reopen { ws: 2 }, ensure(), Call::Reopen { ws: 0 }, ensure()]);
+    out.push(("index_states/fresh_store_unreadable_index_then_a_third_workspace".to_string(), fresh));
+    out
+}
+
+/// frames whose OPTIONAL fields are absent (written by an older version of the store / another writer: appended to
+/// events.jsonl directly, no cache told, store restarted) followed by the no-op and read-only invocations that read
+/// those frames: cursor without endpoint / model, checkpoint without message ids, job without details / result,
+/// schedule decision without a job, run without an actor
+fn raw_frame_cases() -> Vec<(String, Vec<Call>)> {
+    let ensure = || cap(Cp::EnsureDefault, 0, Params::default());
+    let mut out = vec![];
+    for kind in RAWKINDS {
+        let mut c = vec![ensure()];
+        c.extend(msgs(0, 4));
+        c.push(cap(Cp::Auto, 0, Params { stride: Some(2), max_new: Some(33), ..Default::default() }));
+        for restart in [false, true] {
+            c.push(Call::Raw { th: 0, kind });
+            if restart {
+                c.push(Call::Fault { x: Fault::Delete, th: 0 });
+                c.push(Call::Restart);
+            }
+            c.extend(noop_probes(0, 0, &[Some(2), Some(4), None], true));
+            for cp in [Cp::CompactionStatus, Cp::CutPoints, Cp::CursorStatus, Cp::SelectionStatus, Cp::Replay] {
+                c.push(cap(cp, 0, Params { stride: Some(2), ..Default::default() }));
+            }
+            for flt in [[0u8, 0, 1], [0, 1, 0], [0, 2, 2], [2, 0, 0], [1, 1, 1]] {
+                c.push(cap(Cp::CursorRotate, 0, Params { flt: Some(flt), ..Default::default() }));
+            }
+            c.push(ensure());
+        }
+        c.push(cap(Cp::Append(4), 0, Params::default()));
+        out.push((format!("raw_frames/{kind:?}"), c));
+    }
     out
 }
 
@@ -1747,13 +2205,75 @@ fn router_requests(known: Option<&String>, full: bool, known_only: bool, noop_st
     v
 }
 
+/// states for the router cases only: cursor frames with and without endpoint / model; index.json damaged or behind
+/// the log when the authority starts (the last call of the setup decides which workspace the router is built for)
+fn router_extra_states() -> Vec<(&'static str, Vec<Call>)> {
+    let ensure = || cap(Cp::EnsureDefault, 0, Params::default());
+    let cur = |rec: [u8; 3]| cap(Cp::Append(8), 0, Params { rec: Some(rec), ..Default::default() });
+    let mut cursors = vec![ensure()];
+    cursors.extend(msgs(0, 2));
+    cursors.extend([cur([1, 1, 0]), cur([1, 0, 1]), cur([2, 0, 0])]);
+    let mut two = vec![ensure()];
+    two.extend(msgs(0, 1));
+    two.extend([Call::Reopen { ws: 1 }, ensure()]);
+    two.extend(msgs(1, 1));
+    let with = |b: &Vec<Call>, extra: Vec<Call>| {
+        let mut c = b.clone();
+        c.extend(extra);
+        c
+    };
+    vec![
+        ("cursors_without_endpoint_or_model", cursors.clone()),
+        ("index_garbage_at_start", with(&cursors, vec![Call::IndexFault { kind: IKind::Garbage }])),
+        ("index_other_version_at_start", with(&cursors, vec![Call::IndexFault { kind: IKind::WrongVersion(0) }])),
+        ("index_empty_backup_at_start", with(&cursors, vec![Call::IndexFault { kind: IKind::EmptyValid }])),
+        ("index_zero_length_at_start", with(&cursors, vec![Call::IndexFault { kind: IKind::ZeroLength }])),
+        ("index_deleted_at_start", with(&cursors, vec![Call::IndexFault { kind: IKind::Deleted }])),
+        ("two_workspaces_index_behind_the_log_at_start", with(&two, vec![Call::IndexFault { kind: IKind::Snapshot(1) }])),
+        ("two_workspaces_index_behind_with_tmp_at_start", with(&two, vec![Call::IndexFault { kind: IKind::SnapshotWithTmp(1) }])),
+    ]
+}
+
+/// provider-cursor-rotate with every combination of the optional filters, and /threads/ensure twice: silent exactly
+/// when the truth log says so (no recorded cursor passes the filters; the workspace has its thread)
+fn router_decision_requests(known: Option<&String>, hs: &[Hdr], ws_key: &str) -> Vec<Req> {
+    let mut v = vec![];
+    let has_thread = hs.iter().any(|h| matches!(&h.ev.kind, rip_kernel::EventKind::ContinuityCreated { workspace, .. } if workspace == ws_key));
+    for _ in 0..2 {
+        v.push(Req { method: "POST", uri: "/threads/ensure".into(), body: None, silent: has_thread, unknown_id: false });
+    }
+    if let Some(id) = known {
+        let stream: Vec<&Hdr> = hs.iter().filter(|h| h.kind == rip_kernel::StreamKind::Continuity && &h.sid == id).collect();
+        for fp in 0..3u8 {
+            for fe in 0..4u8 {
+                for fm in 0..4u8 {
+                    let mut body = json!({"actor_id": "user", "origin": "harness"});
+                    for (k, val) in [("provider", opt_str(fp, &CUR_PROVIDERS)), ("endpoint", opt_str(fe, &CUR_ENDPOINTS)), ("model", opt_str(fm, &CUR_MODELS))] {
+                        if let Some(x) = val {
+                            body[k] = json!(x);
+                        } else if (fp + fe + fm) % 2 == 1 {
+                            body[k] = json!(null); // absent and explicit null alike
+                        }
+                    }
+                    v.push(Req { method: "POST", uri: format!("/threads/{}/provider-cursor-rotate", pct(id)), body: Some(body.to_string()), silent: !ref_rotate_has_target(&stream, [fp, fe, fm]), unknown_id: false });
+                }
+            }
+        }
+    }
+    v.push(Req { method: "POST", uri: "/threads/ensure".into(), body: None, silent: has_thread, unknown_id: false });
+    v
+}
+
 fn router_cases(a: &Args, res: &mut RunResult, base_id: i64) {
-    let states = sweep_states();
+    let mut states = sweep_states();
+    states.extend(router_extra_states());
     let pick: &[&str] = if a.thorough() {
         &["empty_store", "base", "inflight_job", "inflight_job_caches_deleted_restart", "backlog_larger_than_max_new", "all_cut_points_checkpointed", "base_torn_sidecar_restart", "children_inflight_on_child", "all_cut_points_checkpointed_comp_sidecar_torn_restart", "inflight_job_aged_1h", "all_cut_points_checkpointed_aged_1h", "base_cursor_and_checkpoint_aged_400d"]
     } else {
         &["base", "inflight_job", "inflight_job_caches_deleted_restart", "all_cut_points_checkpointed_comp_sidecar_torn_restart", "inflight_job_aged_1h"]
     };
+    let extra_names: Vec<&str> = router_extra_states().iter().map(|s| s.0).collect();
+    let pick: Vec<&str> = pick.iter().copied().chain(extra_names.iter().copied()).collect();
     let rt = tokio::runtime::Builder::new_multi_thread().worker_threads(2).enable_all().build().expect("runtime");
     for (k, name) in pick.iter().enumerate() {
         let setup = &states.iter().find(|s| s.0 == *name).expect("state").1;
@@ -1779,7 +2299,14 @@ fn router_cases(a: &Args, res: &mut RunResult, base_id: i64) {
         };
         res.bump_by("router_nothing_to_do_strides", noop_strides.len() as u64);
         let second_round = name.contains("aged") || name.contains("comp_sidecar");
-        let reqs = router_requests(known.as_ref(), k == 0 || a.thorough() || *name == "inflight_job" || second_round, second_round && !a.thorough(), &noop_strides);
+        let third_round = extra_names.contains(name);
+        // the decisions first: they must meet the index as the restart found it
+        let mut reqs = router_decision_requests(known.as_ref(), &hs_now, &ws.to_string_lossy());
+        res.bump_by("router_decision_requests", reqs.len() as u64);
+        res.bump_by("router_decision_requests_that_must_add_nothing", reqs.iter().filter(|r| r.silent).count() as u64);
+        if !third_round || a.thorough() {
+            reqs.extend(router_requests(known.as_ref(), k == 0 || a.thorough() || *name == "inflight_job" || second_round, (second_round || third_round) && !a.thorough(), &noop_strides));
+        }
         let case_id = base_id + k as i64;
         let mut viol: Vec<(String, String, serde_json::Value)> = vec![];
         let mut checks = 0u64;
@@ -2053,7 +2580,7 @@ fn main() {
     res.rule = "case = history of ContinuityStore capability calls (17 capabilities, 7 append kinds, every selector / summary / stride / limit / dry_run / execute / block_on_inflight combination, 40 unknown / malformed / path-shaped thread ids, frames of 8190..100000 bytes), sidecar faults (delete all caches, torn tail, empty, stale prefix) and restarts; 16 named store states (in-flight job, backlog > max_new, all checkpointed, caches deleted / corrupt, restart, children, > 256 KiB thread) x every parameter combination of the read-only / dry-run / no-op invocations on a known id (a fault state is re-created before every call) and on `../events`; 5 thread contents x 9 (fault, restart) combinations x 42 core invocations; events.jsonl is read before and after EVERY call and at every log.* hook point inside EventLog::append; non-trivial = at least one appending call, one silent call and one fault or restart; distinct by hash of the call list; plus byte-level cases (EventLog::append alone, lines of 200..250000 bytes, file growth at the hook points compared with the BufWriter model), a second O_APPEND handle race, router-level cases (percent-encoded ids through the real axum router) and a live case (session runs, thread posts, a pipes task through the router), oracle only".into();
     let n = if a.thorough() { 1500 } else { 110 };
     let mut r = Rng::new(a.seed);
-    let mut w = CaseWriter::new(&a.out, "Model.Frames Model.Log Model.ContStore Model.LogBytes Model.NoopPlan Model.C02Cases Gen.Effects", "check_case_c02g", "model_obs_c02g", 8);
+    let mut w = CaseWriter::new(&a.out, "Model.Frames Model.Log Model.ContStore Model.LogBytes Model.NoopPlan Model.C02Decide Model.C02Cases Gen.Effects", "check_case_c02g", "model_obs_c02g", 8);
     let mut distinct = Distinct::default();
     install_hook();
     let mut plan_seen: std::collections::HashSet<String> = Default::default();
@@ -2108,8 +2635,7 @@ fn main() {
                 if o.unmodelled {
                     res.bump("cases_with_failed_job_not_compared");
                 } else if !a.oracle_only() {
-                    let wrapped: Vec<String> = o.coq_calls.iter().map(|c| if c.starts_with("KCap") || c.starts_with("KFault") || c.starts_with("KRestart") { format!("K ({c})") } else { c.clone() }).collect();
-                    let term = format!("CStore2 {{| c2b_calls := [{}]; c2b_expect := {} |}}", wrapped.join("; "), coq_list_n(&o.obs));
+                    let term = format!("CDecide {{| c3_calls := [{}]; c3_expect := {} |}}", o.coq_calls.join("; "), coq_list_n(&o.obs));
                     let id = w.push(term);
                     if res.case_index.len() < 3000 {
                         let shown: Vec<_> = if calls.len() > 60 { vec![json!(format!("{label} ({} calls; see sweep_cases in harness/src/bin/c02.rs)", calls.len()))] } else { calls.iter().map(call_json).collect() };
